@@ -131,6 +131,8 @@ def run(ctx):
             if info.get("unknown"):
                 raise Machinery("generator produced a record outside the trace spec's domain: %s" % json.dumps(head(r)))
             fails.append(Failure(signature(r, info), describe(r, info), {"family": "ctrl", "record": head(r)}))
+            # the harness looks at what a call returned only 48 calls later: the calls around it are part of the experiment
+            fails[-1].before = [head(x) for x in chunk[max(0, idx - 48):idx]] + [head(x) for x in chunk[idx + 1:idx + 49]]
         if not seen_canary:
             rejected = {i for i, _ in bad}
             canaries(ctx, [r for i, r in enumerate(chunk) if i not in rejected])
@@ -155,16 +157,20 @@ def run(ctx):
     ctx.log("%d records judged by TLC, %d rejected" % (n, len(fails)))
     # of several rejected records of one class the report shows the first: put the most telling one there
     fails.sort(key=lambda f: -f.payload["record"]["args"][0] if f.payload["record"]["ev"] == "transpose" else 0)
-    ctx.report(fails, lambda f: confirm(ctx, f))
+    def conf(f):
+        return confirm(ctx, f)
+    conf.in_context = lambda before, f: rerun(ctx, f.payload["record"], before)[0]
+    ctx.report(fails, conf)
 
 
-def rerun(ctx, rec):
+def rerun(ctx, rec, before=()):
+    """the record is executed FIRST, the calls of its context after it, and all results are looked at only at the end"""
     vh = ctx.build("./cmd/vh_ctrl")
     d = ctx.sub("replay")
     i, o = os.path.join(d, "in.ndjson"), os.path.join(d, "out.ndjson")
-    open(i, "w").write(json.dumps(rec) + "\n")
+    open(i, "w").write("".join(json.dumps(x) + "\n" for x in [rec] + list(before)))
     ctx.run([vh, "rerun", "-in", i, "-out", o])
-    new = json.loads(open(o).read())
+    new = json.loads(open(o).read().splitlines()[0])
     bad = ctx.validate("Trace_Controllers", [new], shards=1)
     if bad and bad[0][1].get("unknown"):
         raise Machinery("replayed record is outside the trace spec's domain")
@@ -176,6 +182,6 @@ def confirm(ctx, f):
 
 
 def replay(ctx, payload):
-    ok, new = rerun(ctx, payload["payload"]["record"])
+    ok, new = rerun(ctx, payload["payload"]["record"], payload["payload"].get("context") or ())
     print(json.dumps(new)[:2000])
     return ok
